@@ -86,6 +86,11 @@ def run_case(ctx, case, rng):
     from vf.props import c15
     n_sub = 1
     spec, tied = c15.build(rng, 'same_tensor' if rng.random() < 0.7 else 'tied_embedding', int(rng.integers(2, 4)))
+  elif case % 128 == 9:
+    # directed: activations of 2^21 elements whose extremes sit at odd positions (anything that strides / samples large tensors)
+    n_sub = 1
+    spec = models.t_huge_activation(rng)
+    ctx.count('huge_activation_cases')
   elif case % 64 == 7:
     # directed: a stateful operator (variable tensor) in the SECOND of two signatures (KF-CALIBRATE-VARIABLE-TENSOR-IN-OTHER-SUBGRAPH)
     n_sub = 2
@@ -95,7 +100,15 @@ def run_case(ctx, case, rng):
     spec = models.model_for_case(rng, multi_sub_p=0.0, alias_p=0.0) if n_sub == 1 else models.rand_model(rng, n_sub=n_sub)
   n = int(rng.integers(1, 7))
   classes = gdata.DATA_CLASSES if rng.random() < 0.5 else ('normal', 'scaled')
+  if 'huge_activation' in spec.classes:
+    n, classes = int(rng.integers(1, 3)), ('normal',)
   datasets = {s['key']: gdata.dataset(rng, s, n, classes) for s in spec.signatures}
+  if 'huge_activation' in spec.classes:
+    for ds_ in datasets.values():
+      for x_ in ds_:
+        for v_ in x_.values():
+          v_[0, :, 1037] += 40.0
+          v_[0, :, 411] -= 30.0
   ok, _ = common.admit(spec, datasets)
   if not ok:
     return {'outcome': 'skipped', 'reason': 'generator_reject'}
